@@ -50,6 +50,27 @@ CHECKS = {
         "Trusted: Coq kernel (closed under the global context); jr.choice(replace=False,p) interface (distinct indices of non-zero probability) assumed by the theorem and checked on every batch; uniformity not proved.",
         "DESIGN.md §5 C06",
     ),
+    "C19": (
+        "Coq proof (invariant of the logging step state over arbitrary histories; evaluation scan = rewards up to the first done) + exact correspondence with next(), the benchmark helpers and a recording backend evaluated in Coq",
+        "Theorems for all reward/done histories and smoothing factors: at a done step the averages are blended with exactly the sum of rewards and number of steps since the previous episode end, unchanged otherwise; per environment; the reported step is the cumulative number of environment steps; rollout_scan returns the rewards up to and including the first terminal/truncated step or the cap; a finished while-loop is independent of fuel; average_reward is the mean over independent keys. "
+        "Tie: next() along histories; reward/done handed to step callbacks by real collect_rollout; scalars received by a recording backend from real PPO.learn; rollout_scan/rollout_while/average_reward on finite MDPs.",
+        "Trusted: Coq kernel (closed under the global context); models of callback.py:138-176,501-531 and benchmark/__init__.py tied by exact differential checks; PPO.train assumed not to alter the integer action tables of the stub policy.",
+        "DESIGN.md §5 C19",
+    ),
+    "C12": (
+        "Coq proof (vectorised collection = map of single collections, on- and off-policy; per-stream GAE) + real-vs-real bitwise and model correspondence; jit/vmap transparency explored numerically",
+        "Theorems: for every env/policy/N the i-th result of the vectorised on-policy (off-policy) collection is exactly the single-environment collection from state i with key split(k,N)[i]; each environment's advantages are GAE of its own stream. "
+        "Tie: vmapped vs N single real collections bitwise (PPO, DQN), vmapped rollouts vs the Coq model; eager/jit/vmap of the components of built-in environments and wrappers within float tolerance.",
+        "Trusted: Coq kernel; the transparency of jit/vmap and purity of equinox modules are properties of JAX/XLA: observed, not proved (named in evidence.not_proved).",
+        "DESIGN.md §5 C12",
+    ),
+    "C02": (
+        "Coq proof over R (clip/observation of the classic-control environments lands in the declared Box for every solver output; bounded observation wrappers land in the advertised space) + exact correspondence of clip()/observation() + membership exploration of all built-in environments",
+        "Theorems for all real inputs and parameters: MountainCar/ContinuousMountainCar clip keeps position and velocity inside the Box (with or without the wall rule); Acrobot and Pendulum observations (cos, sin, clipped velocities) lie in their Box for every angle; wrapped angles lie in [-pi,pi); ClipObservation/RescaleObservation map into the advertised bounds. "
+        "Tie: real clip()/observation() on arbitrary y compared exactly in Coq; rollouts of all built-in environments x options x wrappers with corner actions checking contains(), dtype/shape of reward and flags.",
+        "Trusted: Coq kernel; Reals axioms; hand-written clip models tied by exact differential check. NOT proved, explored only: CartPole margin between termination threshold and bound, finiteness of diffrax/MJX outputs, MuJoCo/G1 membership, independence from Python-side state.",
+        "DESIGN.md §5 C02",
+    ),
 }
 
 NOT_YET = "check not built yet in this round (planned: see DESIGN.md §5)"
